@@ -115,7 +115,6 @@ theorem keys_below (g : GetObj) (skip : List Bytes) (b n k : Bytes) (ts : List T
   | file m =>
     exfalso
     rw [keysNode_file] at hkt
-    split at hkt; · simp at hkt
     split at hkt
     · simp at hkt
       have hs : s = m := hkt
@@ -200,14 +199,12 @@ structure NodeOK (g : GetObj) (skip : List Bytes) (K : List Bytes) (base : Bytes
   wf : wfNode t = true
   oc : ocNode t = true
   pop : populatedNode g skip base t = true
-  nsf : noSkipFileNode skip t = true
   keys : ∀ k ∈ keysNode g skip base t, k ∈ K
 
 structure ListOK (g : GetObj) (skip : List Bytes) (K : List Bytes) (b : Bytes) (ts : List Tree) : Prop where
   wf : wfList ts = true
   oc : ocList ts = true
   pop : populatedList g skip b ts = true
-  nsf : noSkipFileList skip ts = true
   keys : ∀ k ∈ keysList g skip b ts, k ∈ K
 
 theorem ocList_mem : ∀ (ts : List Tree), ocList ts = true → ∀ t ∈ ts, ocNode t = true
@@ -227,24 +224,15 @@ theorem populatedList_mem (g : GetObj) (skip : List Bytes) (b : Bytes) : ∀ (ts
     · exact this.1
     · exact populatedList_mem g skip b us this.2 t h
 
-theorem noSkipFileList_mem (skip : List Bytes) : ∀ (ts : List Tree),
-    noSkipFileList skip ts = true → ∀ t ∈ ts, noSkipFileNode skip t = true
-  | [], _, _, h => by simp at h
-  | u :: us, hp, t, h => by
-    have : noSkipFileNode skip u = true ∧ noSkipFileList skip us = true := by simpa [noSkipFileList] using hp
-    rcases List.mem_cons.1 h with rfl | h
-    · exact this.1
-    · exact noSkipFileList_mem skip us this.2 t h
-
 theorem ListOK.mem {g : GetObj} {skip K : List Bytes} {b : Bytes} {ts : List Tree} (h : ListOK g skip K b ts)
     (t : Tree) (ht : t ∈ ts) : NodeOK g skip K b t :=
   ⟨wfList_mem ts h.wf t ht, ocList_mem ts h.oc t ht, populatedList_mem g skip b ts h.pop t ht,
-    noSkipFileList_mem skip ts h.nsf t ht, fun k hk => h.keys k (keysList_of_mem g skip b ts t ht k hk)⟩
+    fun k hk => h.keys k (keysList_of_mem g skip b ts t ht k hk)⟩
 
 theorem NodeOK.children {g : GetObj} {skip K : List Bytes} {b n : Bytes} {cs : List Tree}
-    (h : NodeOK g skip K b (.dir n cs)) (hn : n ∉ skip) : ListOK g skip K (b ++ n ++ [slash]) cs := by
-  have hs' : skip.contains n = false := by simpa using hn
-  refine ⟨((wfNode_dir n cs).1 h.wf).2, by simpa [ocNode] using h.oc, ?_, by simpa [noSkipFileNode] using h.nsf, ?_⟩
+    (h : NodeOK g skip K b (.dir n cs)) (hn : (b ++ n) ∉ skip) : ListOK g skip K (b ++ n ++ [slash]) cs := by
+  have hs' : skip.contains (b ++ n) = false := by simpa using hn
+  refine ⟨((wfNode_dir n cs).1 h.wf).2, by simpa [ocNode] using h.oc, ?_, ?_⟩
   · have := h.pop
     simp only [populatedNode, hs', Bool.false_or, Bool.and_eq_true] at this
     exact this.2
@@ -255,7 +243,7 @@ theorem NodeOK.children {g : GetObj} {skip K : List Bytes} {b n : Bytes} {cs : L
 
 theorem descend_sound (g : GetObj) (skip K : List Bytes) : ∀ (elems : List Bytes) (b : Bytes) (ts : List Tree)
     (base : Bytes) (t : Tree), descend elems b ts = some (base, t) →
-    (∀ e ∈ elems.dropLast, e ∉ skip) → ListOK g skip K b ts →
+    (∀ s ∈ skip, ¬ (s ++ [slash]) <+: (b ++ joinWith slash elems)) → ListOK g skip K b ts →
     NodeOK g skip K base t ∧ base ++ t.name = b ++ joinWith slash elems
   | [], _, _, _, _, h, _, _ => by simp [descend] at h
   | [n], b, ts, base, t, h, _, hok => by
@@ -276,13 +264,59 @@ theorem descend_sound (g : GetObj) (skip K : List Bytes) : ∀ (elems : List Byt
         have hxn : x = n := hx.2
         subst hxn
         have hnode := hok.mem _ hx.1
-        have hns : x ∉ skip := hsk x (by simp [List.dropLast])
+        have hpath : b ++ joinWith slash (x :: m :: rest) = b ++ x ++ [slash] ++ joinWith slash (m :: rest) := by
+          rw [joinWith_cons2]; simp
+        have hns : (b ++ x) ∉ skip := fun hm =>
+          hsk (b ++ x) hm (by rw [hpath]; exact List.prefix_append _ _)
         have := descend_sound g skip K (m :: rest) (b ++ x ++ [slash]) cs base t h
-          (fun e he => hsk e (by
-            have : (x :: m :: rest).dropLast = x :: (m :: rest).dropLast := by simp [List.dropLast]
-            rw [this]; simp [he]))
+          (fun s hs => by rw [← hpath]; exact hsk s hs)
           (hnode.children hns)
         refine ⟨this.1, ?_⟩
         rw [this.2, joinWith_cons2]; simp
+
+theorem descend_path : ∀ (elems : List Bytes) (b : Bytes) (ts : List Tree) (base : Bytes) (t : Tree),
+    descend elems b ts = some (base, t) → base ++ t.name = b ++ joinWith slash elems
+  | [], _, _, _, _, h => by simp [descend] at h
+  | [n], b, ts, base, t, h => by
+    simp only [descend, Option.map_eq_some_iff, Prod.mk.injEq] at h
+    obtain ⟨t', hf, rfl, rfl⟩ := h
+    simp [joinWith, (findChild_some ts n _ hf).2]
+  | n :: m :: rest, b, ts, base, t, h => by
+    unfold descend at h
+    cases hf : findChild n ts with
+    | none => simp [hf] at h
+    | some u =>
+      cases u with
+      | file x => simp [hf] at h
+      | dir x cs =>
+        simp only [hf] at h
+        have := descend_path (m :: rest) (b ++ n ++ [slash]) cs base t h
+        rw [this, joinWith_cons2]; simp
+
+/-- nothing below a skipped directory is a key -/
+theorem keys_not_under_skip (g : GetObj) (skip : List Bytes) (top : List Tree) (hw : wfList top = true)
+    (k s : Bytes) (hk : k ∈ keysList g skip [] top) (hs : s ∈ skip) : ¬ (s ++ [slash]) <+: k := by
+  intro hp
+  have hjoin : joinWith slash (splitOn slash s) = s := join_splitOn slash s
+  obtain ⟨base, t, hd, hkt, _⟩ := descend_complete g skip (splitOn slash s) [] k top
+    (splitOn_ne_nil slash s) (splitOn_no_sep slash s) hw hk (by rw [hjoin]; simpa using hp)
+  have hpath := descend_path _ _ _ _ _ hd
+  rw [hjoin] at hpath
+  simp only [List.nil_append] at hpath
+  cases t with
+  | file n =>
+    rw [keysNode_file] at hkt
+    split at hkt
+    · simp at hkt
+      simp only [Tree.name] at hpath
+      have := hp.length_le
+      rw [hkt, ← hpath] at this
+      simp at this
+      omega
+    · simp at hkt
+  | dir n cs =>
+    simp only [Tree.name] at hpath
+    rw [keysNode_dir, if_pos (by rw [hpath]; exact hs)] at hkt
+    simp at hkt
 
 end Vgw.Model.Walk
